@@ -245,8 +245,9 @@ def _write_files(spec, d, layer, prefix):
         names.append(nm)
         if e["kind"] == "zero":
             continue
-        with open(os.path.join(d, nm), "wb") as fh:
-            top = 0
+        pth = os.path.join(d, nm)
+        with open(pth, "r+b" if (e.get("shared") and os.path.exists(pth)) else "wb") as fh:  # several extents may be carved from one flat file
+            top = os.path.getsize(pth) if e.get("shared") else 0
             for off, data in build_extent(e, layer, i):
                 fh.seek(off)
                 fh.write(data)
@@ -361,6 +362,19 @@ def gen_specs(rng: random.Random, n, hints=None):
                 tot = sum(e["capacity"] for e in exts)
                 sp["parent"] = {"mode": "descriptor", "extents": [{"kind": "flat", "capacity": tot, "dtype": "FLAT"}]}
             out.append(sp)
+    # several FLAT extents carved from ONE flat file through the start-offset field (out of order, with gaps): every extent must read
+    # its own sector range whatever the other extents did to a handle they may share
+    for _ in range(max(2, n // 12)):
+        ne = rng.randint(2, 4)
+        caps = [rng.randint(1, 6) for _ in range(ne)]
+        order = list(range(ne))
+        rng.shuffle(order)
+        starts, pos = {}, rng.randint(0, 3)
+        for j in order:
+            starts[j] = pos
+            pos += caps[j] + rng.randint(0, 2)
+        out.append({"mode": "descriptor", "interleave": True,
+                    "extents": [{"kind": "flat", "capacity": caps[j], "dtype": "FLAT", "start": starts[j], "name": "disk-shared-flat.vmdk", "shared": True} for j in range(ne)]})
     if (hints or {}).get("big_footer"):
         # stream-optimized extent whose grain directory (located through the footer) has more than 128 entries
         ngr = 140
@@ -401,4 +415,13 @@ def sector_requests(spec, rng, limit=20):
     ns = spec["size"] // S
     pairs = [(a, b) for a in range(ns + 1) for b in range(a + 1, ns + 1)]
     rng.shuffle(pairs)
-    return [(a, b - a) for a, b in pairs[:limit]]
+    out = [(a, b - a) for a, b in pairs[:limit]]
+    if spec.get("interleave"):
+        # sector k of every extent in turn, k = 0, 1, ...: each extent is read sequentially while its siblings are read in between
+        bases, acc = [], 0
+        for e in spec["extents"]:
+            bases.append((acc, e["capacity"]))
+            acc += e["capacity"]
+        for k in range(max(c for _, c in bases)):
+            out += [(b + k, 1) for b, c in bases if k < c]
+    return out
